@@ -9,6 +9,7 @@ import (
 	"os"
 	"sort"
 	"strings"
+	"time"
 
 	"golang.org/x/tools/go/ssa"
 )
@@ -125,6 +126,13 @@ type Interp struct {
 	witnessMax int
 	curFn      *ssa.Function
 	harnessPkg *ssa.Package
+	smallLen   int
+	mergeGuard *Term
+	noMerge    bool
+	skolemSeq  bool
+	ignorePanics bool
+	seqCap     int
+	deadline   time.Time
 	itoaTags   map[*ArrNode]*Term
 }
 
@@ -142,6 +150,9 @@ type frame struct {
 
 func (in *Interp) end(kind, msg string) { panic(pathEnd{kind, msg}) }
 func (in *Interp) goPanic(msg string) {
+	if in.ignorePanics {
+		in.end("bound", "panic outside the scope of this harness (decided by C10)")
+	}
 	in.end("panic", msg)
 }
 func (in *Interp) unsupported(f string, a ...interface{}) {
@@ -398,6 +409,10 @@ func (in *Interp) Explore(fn *ssa.Function) {
 		in.preemptions = 0
 		in.pendingEnd = nil
 		in.callDepth = 0
+		in.smallLen = 4
+		in.mergeGuard = nil
+		in.ignorePanics = false
+		in.seqCap = 64
 		in.runPath(fn)
 		in.res.Paths++
 		if os.Getenv("SYMGO_DEBUG") != "" {
@@ -413,6 +428,11 @@ func (in *Interp) Explore(fn *ssa.Function) {
 			in.stack = in.stack[:len(in.stack)-1]
 		}
 		if len(in.stack) == 0 {
+			return
+		}
+		if !in.deadline.IsZero() && time.Now().After(in.deadline) {
+			in.res.Truncated = true
+			in.addOutcome("inconclusive", "time-budget", fmt.Sprintf("time budget exhausted after %d paths", in.res.Paths), nil)
 			return
 		}
 		if in.maxPaths > 0 && in.res.Paths >= in.maxPaths {
@@ -451,6 +471,9 @@ func (in *Interp) runPath(fn *ssa.Function) {
 			in.addOutcome("deadlock", "no-deadlock", pe.msg, in.model(Bool(true)))
 		case "race":
 			in.addOutcome("race", "no-race", pe.msg, in.model(Bool(true)))
+		case "bound":
+			// the path leaves the stated bound: not explored, counted
+			in.res.Reach["out-of-bound:"+pe.msg]++
 		case "unwind":
 			if in.unwindViolation {
 				in.addOutcome("violation", "terminates", pe.msg, in.model(Bool(true)))
@@ -631,24 +654,38 @@ func (in *Interp) run(fr *frame) Value {
 	var prev *ssa.BasicBlock
 	b := fr.fn.Blocks[0]
 	fname := fr.fn.String()
+	skipPhis := false
 	for {
 		fr.visits[b]++
 		if fr.visits[b] > in.loopBound && !in.initing {
 			in.end("unwind", fmt.Sprintf("loop bound %d exceeded in %s block %d", in.loopBound, fr.fn, b.Index))
 		}
 		var next *ssa.BasicBlock
+		phisDone := skipPhis
+		skipPhis = false
 		in.res.Funcs[fname] += len(b.Instrs)
 		for _, ins := range b.Instrs {
 			in.res.Steps++
 			switch x := ins.(type) {
 			case *ssa.Phi:
+				if phisDone {
+					break
+				}
 				for i, p := range b.Preds {
 					if p == prev {
 						fr.loc[x] = in.get(fr, x.Edges[i])
 					}
 				}
 			case *ssa.If:
-				if in.branch(in.get(fr, x.Cond).(*Term)) {
+				cond := in.get(fr, x.Cond).(*Term)
+				if !cond.IsConst() {
+					if j := in.tryMerge(fr, x, cond); j != nil {
+						next = j
+						skipPhis = true
+						break
+					}
+				}
+				if in.branch(cond) {
 					next = b.Succs[0]
 				} else {
 					next = b.Succs[1]
